@@ -129,12 +129,12 @@ func vC03Cut(L int) {
 	if ended {
 		vAssert(sub.IsClosed(), op.name+": subscription not closed after the stream terminated")
 		vAssert(p.live == 0, op.name+": the source is still subscribed after the subscription closed")
-		vAssert(p.teardowns == p.subs, op.name+": the source's teardown did not run exactly once")
+		vAssert(p.maxTorn() <= 1, op.name+": the source's teardown ran more than once")
 		sub.Wait() // must return (a hang is reported as a deadlock)
 		run, blk := vLive()
 		vAssert(run == 0 && blk == 0, op.name+": a library goroutine is left after the subscription closed")
 	} else {
-		vAssert(p.teardowns == 0, op.name+": the source was released although the stream is still running")
+		vAssert(p.teardowns == 0 || p.subs == 0, op.name+": the source was released although the stream is still running")
 	}
 	vReach("end")
 }
